@@ -331,6 +331,19 @@ def gen_cases(ctx, extra_bias=None):
             cross = rng.choice(list(setups)) if rng.random() < 0.1 else rcpt   # command sent to another contract
             cases.append(mk(gi, cross, c, amt=rng.choice([amt, 0, 1, 30000 * AERGO]), snd=rng.choice([0, 0, 1, 2]),
                             fork=rng.choice([1, 2, 3]), raft=rng.random() < 0.3, pub=rng.random() < 0.1))
+    # every transaction type value x public / private network x hardfork version x sender x recipient kind x payload x
+    # amount: real admission, then the real executeTx with the stub VM (predicate: no panic)
+    tys = list(range(-1, 10)) + [100, 2 ** 31 - 1]
+    rcpts = ["@A1", "", "aergo.system", "aergo.name", "aergo.vault", "abcdefghijkl", "@A0"]
+    pays = ["", "x", '{"Name":"f","Args":[]}']
+    combos = [(ty, pub, fork, snd, rc, pl, amt) for ty in tys for pub in (False, True) for fork in (0, 1, 2, 3, 4)
+              for snd in (0, 3) for rc in rcpts for pl in pays for amt in (0, 5)]
+    if quick:
+        base = [(ty, pub, rng.choice([0, 1, 2, 3, 4]), rng.choice([0, 3]), rc, rng.choice(pays), rng.choice([0, 5]))
+                for ty in tys for pub in (False, True) for rc in ("@A1", "", "aergo.system")]
+        combos = base + rng.sample(combos, 40)
+    for ty, pub, fork, snd, rc, pl, amt in combos:
+        cases.append(mk(newg(), rc, pl, ty=ty, pub=pub, fork=fork, snd=snd, amt=amt))
     # envelope cases: types, lengths, amounts
     for ty in range(0, 9):
         for rcpt in ("aergo.system", "", "aergo.vault"):
@@ -485,6 +498,11 @@ def coq_case(c, o):
             B(r["rpc_b64"]), B(r["rpc_w"]), B(r["cc_peer"]), B(r["cc_addr"]), B(r["cc_hex"])))
     enc = ["(%s,%s)" % (cs(k), cs(e)) for k, e in sorted(v["admin_enc"].items())]
     vt, vs, ex = classify(o["v_types"], "types"), classify(o["v_state"], "state"), classify(o["exec"], "exec")
+    if c["ty"] != GOV:
+        # non-governance types: the model covers Tx.Validate and the type dispatch; fees, balances and the VM are
+        # outside it (direct predicate only: no panic)
+        vs = "CPanic" if vs == "CPanic" else "CSkip"
+        ex = "CPanic" if ex == "CPanic" else "CSkip"
     post = "None"
     if c["ty"] == GOV and rcpt == b"aergo.enterprise" and ex == "COk":
         post = "(Some (%s,%s))" % (cs(o["post"]["admins"]), cconfs(o["post"]["confs"]))
